@@ -353,6 +353,9 @@ func alignExtras(c *Ctx, prop string) {
 		a, b := c.bytesFrom(al, 2+c.rng.Intn(10)), c.bytesFrom(al, 2+c.rng.Intn(10))
 		if i%4 == 3 { // tables of several thousand cells too: what a call keeps for the next may depend on the size
 			a, b = c.bytesFrom(al, 70+c.rng.Intn(40)), c.bytesFrom(al, 70+c.rng.Intn(40))
+			if i%8 == 7 { // and beyond 2^14 cells
+				a, b = c.bytesFrom(al, 130+c.rng.Intn(30)), c.bytesFrom(al, 130+c.rng.Intn(30))
+			}
 		}
 		align.Global(a, b, mt.m)
 		align.Local(a, b, mt.m)
@@ -404,6 +407,24 @@ func alignExtras(c *Ctx, prop string) {
 		}
 		mt := imat{m, cols, open, fmt.Sprintf("rows over %q, columns over %q", rows, cols)}
 		alignCase(c, prop, mt, c.bytesFrom(rows, la), c.bytesFrom(cols, lb), "non-square")
+	}
+	// (2c) C09: gap scores that are POSITIVE for some letters (gap-open stays zero): the edges of the table then
+	// carry running sums that matter, for Local too
+	if prop == "C09" {
+		for i := 0; i < c.n(30); i++ {
+			al := []byte("acgn")[:2+c.rng.Intn(3)]
+			mt := c.randMatrix(al, c.rng.Intn(2) == 0, true, 0)
+			for _, x := range al {
+				if c.rng.Intn(2) == 0 {
+					mt.m[[2]byte{x, align.Gap}] = float64(c.rng.Intn(3))
+				}
+				if c.rng.Intn(2) == 0 {
+					mt.m[[2]byte{align.Gap, x}] = float64(c.rng.Intn(3))
+				}
+			}
+			mt.desc = "random matrix with some positive gap scores, gap-open 0"
+			alignCase(c, prop, mt, c.bytesFrom(al, c.rng.Intn(9)), c.bytesFrom(al, c.rng.Intn(9)), "positive-gaps")
+		}
 	}
 	// (3) large integer scores (exact in float64, not in float32)
 	for i := 0; i < c.n(40); i++ {
